@@ -99,6 +99,9 @@ func c03Body(cfgs []c03Cfg, known map[string]lib.KnownEntry) lib.Body {
 		} else {
 			w = sw
 		}
+		// prefix history (the log writes and fsyncs of these statements are watched too: whatever an acknowledged
+		// statement has written to the log and not yet fsynced is lost by a "cut at last fsync" crash)
+		w.capture, w.writes = true, nil
 		// prefix history
 		for step := 0; step < h.Depth-1; step++ {
 			s := w.pick(h.Alpha, "stmt")
@@ -128,6 +131,15 @@ func c03Body(cfgs []c03Cfg, known map[string]lib.KnownEntry) lib.Body {
 		}
 		pre := w.model.clone()
 		preImg := w.image()
+		unsyncedTail := 0 // bytes the acknowledged statements before this one wrote to the log after the last fsync
+		for _, e := range w.writes {
+			switch {
+			case e.Kind == "wal" && e.Path == filepath.Join("data", "d", "wal"):
+				unsyncedTail += len(e.Data)
+			case e.Kind == "walsync":
+				unsyncedTail = 0
+			}
+		}
 		w.capture, w.writes = true, nil
 		c.Logf("%s   <- crash inside this statement's log append", clip(s.SQL, 140))
 		err := w.exec(s.SQL)
@@ -179,6 +191,12 @@ func c03Body(cfgs []c03Cfg, known map[string]lib.KnownEntry) lib.Body {
 		}
 		c.Logf("CRASH after %d of %d log writes", cut, len(walWrites))
 		img := preImg.clone()
+		if cut == 0 && unsyncedTail > 0 && unsyncedTail <= len(img[walPath]) && c.Choose(2, "cut-mode-before-first-write") == 1 {
+			// cut at the last fsync, before the statement's first log write: what earlier statements left unsynced is gone
+			c.Logf("the log is cut at the last fsync: %d bytes written by acknowledged statements were never fsynced and are lost", unsyncedTail)
+			c.Tag("fsync-cut-loses-acknowledged-bytes")
+			img[walPath] = img[walPath][:len(img[walPath])-unsyncedTail]
+		}
 		for i := 0; i < eff; i++ {
 			img[walPath] = append(img[walPath], walWrites[i]...)
 		}
